@@ -368,6 +368,21 @@ pub fn run(ctx: &Ctx) {
         })
     }, check_call);
 
+    ctx.cold("cold_start_entries", "each entry point, fed its valid artefact (or 40 pseudo-random bytes) and a corrupted one, as the first library call of a fresh process", || {
+        let mut v = Vec::new();
+        for e in ENTRIES {
+            let good = valid_artefact(e).unwrap_or_else(|| expand_bytes(hash64(e), 40));
+            v.push(Call { entry: e.to_string(), input: Hex(good.clone()) });
+            let mut bad = good;
+            if !bad.is_empty() {
+                let i = bad.len() / 2;
+                bad[i] ^= 0x41;
+            }
+            v.push(Call { entry: e.to_string(), input: Hex(bad) });
+        }
+        v
+    }, check_call);
+
     ctx.exhaustive("sm4_iv_carry_family", "SM4 modes with IVs ending in t = 0..=16 bytes 0xFF (last byte also 0xFE, 0xFD, 0xF0: the counter carries or wraps inside the message) x data of 0..=100 bytes, encrypt and decrypt", || {
         let mut v = Vec::new();
         for e in ["sm4.mode.encrypt(mode,iv,data)", "sm4.mode.decrypt(mode,iv,data)"] {
